@@ -180,7 +180,7 @@ func c09() {
 		res, err := vlib.RunChild(bin, "history", cc, pl.strace, 60*time.Second)
 		if err != nil || res.TimedOut || res.Line("done") == nil {
 			run.Count("watchdog_or_crash", 1)
-			run.Inconclusive(fmt.Sprintf("history child did not finish (%s): %v %s", pl.desc, err, tail(res.Stderr, 300)))
+			run.SoftInconclusive(fmt.Sprintf("history child did not finish (%s): %v %s", pl.desc, err, tail(res.Stderr, 300)))
 			return
 		}
 		run.Count("histories", 1)
